@@ -157,6 +157,7 @@ template <class G> void checkC11(const G &g, const Model &m, Fail &f) {
     const size_t SENT = algorithms::BASEGRAPH_VERTEX_MAX;
     for (unsigned s = 0; s < n; ++s) {
         auto d = r.hopDistances(s);
+        progressTick();
         ++g_cases;
         if (r.listLength > 0) ++g_nontrivial;
         std::string where = "source " + std::to_string(s) + " on " + m.str();
